@@ -52,6 +52,12 @@ Inductive case :=
    concurrently), then the balancer made the remaining picks.  hs: the slice before;
    after: the caller's slice afterwards; sub: the list of the subscriber that was returned *)
 | CShared (hs : list string) (known : bool) (c0 : Z) (obs : list res) (c1 : Z) (after sub : list string)
+(* round robin, one caller, a stable list hs with failing lookups in between (every report is
+   hs, an error or an empty list): the selections that were made must be fair over every window.
+   via as in CSeqFixed *)
+| CSeqStable (via : nat) (hs : list string) (known : bool) (c0 : Z) (steps : list (report * res)) (c1 : Z)
+(* the same with concurrent callers: per caller the report it was handed and the result *)
+| CConcStable (hs : list string) (per : list (list (report * res)))
 (* round robin, several concurrent callers on one fixed list: results per caller *)
 | CConc (known : bool) (hs : list string) (c0 : Z) (per : list (list res)) (c1 : Z)
 (* random balancer with an injected (seeded fastrand.RNG) generator, scripted reports:
@@ -89,6 +95,21 @@ Definition check_case (c : case) : bool * bool :=
       let '(c1m, om) := rr_run c0 (map fst steps) in
       (list_eqb kind_eqb om (map snd steps),
        forallb (fun s => call_ok_b (fst s) (snd s)) steps)
+  | CSeqStable via hs known c0 steps c1 =>
+      let rs := map fst steps in
+      let obs := map snd steps in
+      let '(c1m, om) := rr_run c0 rs in
+      let M := List.length (oks om) in
+      (list_eqb kind_eqb om obs && stable_b hs rs &&
+       (negb (known && nonempty hs) || (c1 =? c1m)) &&
+       (negb (nodup_str hs && no_wrap_b c0 M (List.length hs)) || same_mset_Z (counts hs (oks om)) (counts hs (oks obs))),
+       forallb (fun s => call_ok_b (fst s) (snd s)) steps &&
+       (negb (nodup_str hs && nonempty hs && no_wrap_b c0 M (List.length hs)) || rr_seq_b hs (oks obs)))
+  | CConcStable hs per =>
+      let all := List.concat per in
+      (forallb (fun s => kind_eqb (snd (rr_step 0 (fst s))) (snd s)) all && stable_b hs (map fst all),
+       forallb (fun s => call_ok_b (fst s) (snd s)) all &&
+       (negb (nodup_str hs && nonempty hs) || fair_b hs (oks (map snd all))))
   | CConc known hs c0 per c1 =>
       let all := List.concat per in
       let M := List.length all in
